@@ -725,11 +725,18 @@ def _mask_insertion(ctx, rule):
     return c03.r3_mask_insertion(ctx, rule)
 
 
+def r11_sections_not_aliased(ctx, rule):
+    """Each grammar section has its own list (seed C01-i bound grammar['E'] and grammar['W'] to one list by a chained assignment: the
+    list is not in descending order at the seam and W pre-terminals are priced with e-mail probabilities)."""
+    from .common import no_aliased_containers
+    no_aliased_containers(ctx, rule, ['lib_guesser/', 'lib_scorer/'], 100, "the loaders fill every section of the grammar by appending to the list they are handed; one list bound to two sections makes each of them hold the records of both files, in neither file's order and priced with the other file's probabilities")
+
+
 def rules(tier):
     return [('C01.R1', r1_heap_order), ('C01.R2', r2_heap_ownership), ('C01.R3', r3_prob_fold),
             ('C01.R4', r4_prob_pt_coupling), ('C01.R5', r5_successor), ('C01.R6', r6_loader_order),
             ('C01.R7', r7_determinism), ('C01.R8', r8_uniform_scale),
-            ('C01.R9', r9_exact_float_discipline), ('C01.R10', _mask_insertion)]
+            ('C01.R9', r9_exact_float_discipline), ('C01.R10', _mask_insertion), ('C01.R11', r11_sections_not_aliased)]
 
 
 META = {
